@@ -5,6 +5,7 @@
 from typing import NamedTuple, Set, Callable, Dict, Tuple, Union, Iterable, Any, Mapping
 from collections import defaultdict
 import warnings
+import weakref
 import numbers
 
 from qupulse.hardware.awgs.base import AWG, ProgramOverwriteException
@@ -94,6 +95,32 @@ class HardwareSetup:
 
         self._registered_programs = dict()  # type: Dict[str, RegisteredProgram]
 
+        # register_program takes the measurements out of the Loop it is given (the drivers restructure that object and
+        # can not carry them along). What was taken out of which object is remembered here, so that registering the very
+        # same object again (update=True after a wiring change, or after a call that raised) uses its windows again.
+        self._taken_measurements = dict()  # type: Dict[int, Tuple[weakref.ref, Dict[str, Tuple[np.ndarray, np.ndarray]]]]
+
+    def _take_measurements(self, program: Loop) -> Dict[str, Tuple[np.ndarray, np.ndarray]]:
+        """Remove the measurements from the program and return its measurement windows: everything that this setup has
+        taken out of this very object so far (a Loop that was registered before has none attached any more)."""
+        taken = program.get_measurement_windows(drop=True)
+        key = id(program)
+        remembered = self._taken_measurements.get(key)
+        if remembered is not None and remembered[0]() is program:
+            windows = dict(remembered[1])
+            for mw_name, (begins, lengths) in taken.items():
+                if mw_name in windows:
+                    windows[mw_name] = (np.concatenate((windows[mw_name][0], begins)),
+                                        np.concatenate((windows[mw_name][1], lengths)))
+                else:
+                    windows[mw_name] = (begins, lengths)
+        else:
+            windows = taken
+        if windows:
+            store = self._taken_measurements
+            self._taken_measurements[key] = (weakref.ref(program, lambda _: store.pop(key, None)), windows)
+        return dict(windows)
+
     def register_program(self, name: str,
                          program: Loop,
                          run_callback=lambda: None,
@@ -119,7 +146,7 @@ class HardwareSetup:
                 channels - set(self._channel_map.keys())))
 
         if measurements is None:
-            measurements = program.get_measurement_windows(drop=True)
+            measurements = self._take_measurements(program)
 
         temp_measurement_windows = defaultdict(list)
         for mw_name, begins_lengths in measurements.items():
